@@ -25,10 +25,20 @@ MACROS = [
     # having bound some of them
     "(define-syntax sw (syntax-rules () ((sw x temp) (+ x temp))))",
     "(define-syntax pk (syntax-rules () ((pk atom-key x temp) (list atom-key x temp)) ((pk (x)) x)))",
+    # definitions with an ellipsis, with a CUSTOM ellipsis identifier (accepted and REJECTED ones: the keyword position spelled
+    # `_` is rejected by this implementation), and other rejected definitions: a definition that fails leaves nothing behind
+    "(define-syntax my-list (syntax-rules () ((my-list a ...) (list a ...))))",
+    "(define-syntax cl (syntax-rules ::: () ((cl a :::) (list a :::))))",
+    "(define-syntax cl2 (syntax-rules ::: () ((_ a :::) (list a :::))))",
+    "(define-syntax cl3 (syntax-rules dots (k) ((_ a dots) 1)))",
+    "(define-syntax bad1 (syntax-rules () ((_ a ...) (list a ...))))",
+    "(define-syntax bad2 (syntax-rules () ((bad2 a) (5 ...))))",
+    "(define-syntax bad3 (syntax-rules ::: () ((bad3 a) (a . :::)) 7))",
 ]
 USES = ["(cond (#f 1) (else 2))", "(let ((q 1)) (+ q 1))", "(my-m 5)", "(and 1 2)", "(begin 1 2)", "(or #f 3)", "(case 1 ((1) 'one) (else 'other))",
         "(when #t 1 2)", "(map (lambda (q) (* q q)) '(1 2 3))", "(append '(1) '(2))",
         "(sw 5)", "(sw 1 2)", "(sw 7 8 9)", "(pk 1 2)", "(pk (3))", "(pk 4 5 6)", "(my-m)", "(my-m 1 2)",
+        "(my-list 1 2 3)", "(my-list)", "(cl 1 2)", "(cl2 1)", "(my-list 4)", "(cl 1 2 3)",
         "(or #f 3)", "(cond (#f 1) (2 => (lambda (v) (* v 10))))", "(case (+ 1 0) ((1) 'one) (else 'other))", "(or #f #f 4)"]
 OTHER = ["(define shared 1)", "(set! shared (+ shared 1))", "shared", "(define (f) 'mine)", "(f)", "(car '())", "(undefined-zz)",
          "(import (scheme base))", "(import (nonexistent lib))", "(define car cdr)", "(car '(1 2))", "(set! undefined-yy 1)",
